@@ -179,6 +179,25 @@ def build_teams(rng, mh, shape, beta, tau_pos, named=True, session=None):
     return teams
 
 
+def pollute(sess, rng, kind, params, gname, vals, ops, okw=None):
+    """Earlier calls by *another* model instance with other parameters on the same values: a result may
+    depend only on the model's own construction parameters, so this must change nothing (C14)."""
+    p2 = dict(params)
+    beta = p2.get("beta", BETA0)
+    p2["beta"] = beta * rng.choice([0.5, 2.0, 3.0])
+    p2["tau"] = beta * rng.choice([0.0, 0.3])
+    if kind in ("TMF", "TMP"):
+        p2["kappa"] = min(p2.get("kappa", 1e-4), 1e-2 * math.sqrt(2.0) * p2["beta"])
+    other = sess.model(kind, gamma=gname, **p2)
+    for op in ops:
+        teams = make_teams(other, vals)
+        if op == "rate":
+            if all(sg > 0 for tv in vals for (_m, sg) in tv) or p2["tau"] > 0:
+                sess.rate(other, teams, **(okw or {}))
+        else:
+            sess.predict(op, other, teams)
+
+
 def rate_campaign(sess, rng, count, kinds=KINDS, max_teams=8, max_players=8, simple=False):
     """count independent random rate calls, one trace each."""
     for _ in range(count):
@@ -215,6 +234,8 @@ def predict_campaign(sess, rng, count, kinds=KINDS, max_teams=8, max_players=8):
             for i in range(len(teams)):
                 if i != k and rng.random() < 0.6:
                     teams[i] = [mh.m.rating(p.mu, p.sigma) for p in teams[k]]
+        if rng.random() < 0.3:
+            pollute(sess, rng, kind, params, g, [[(p.mu, p.sigma) for p in t] for t in teams], ("win", "draw", "rank"))
         for op in ("win", "draw", "rank"):
             sess.predict(op, mh, teams)
 
@@ -511,6 +532,8 @@ def predict_relations(sess, rng, count, kinds=KINDS):
         shape = pick_shape(rng, 8, 4)
         n = len(shape)
         vals = random_vals(rng, shape, beta)
+        if rng.random() < 0.5:
+            pollute(sess, rng, kind, params, g, vals, ("win", "draw", "rank"))
         # C09: raise one member's mu by a ladder of steps
         gid = GID.new("C09", "inc")
         sess.predict("win", mh, make_teams(mh, vals), group=gid, role="base")
@@ -572,6 +595,11 @@ def model_groups(sess, rng, count):
         if rng.random() < 0.4:
             shape = shape[:2]
         vals = random_vals(rng, shape, beta, params.get("tau", 1.0) > 0)
+        if rng.random() < 0.5:  # identical teams: exact probability ties (partial and total)
+            k = rng.randrange(len(vals))
+            for i in range(len(vals)):
+                if i != k and rng.random() < 0.5:
+                    vals[i] = list(vals[k])
         okw, _ = encode_order(rng, weak_order(rng, len(shape)))
         for op in ["rate", "win", "draw", "rank"]:
             gid = GID.new("C19", op)
@@ -804,3 +832,150 @@ def api_groups(sess):
         gid = GID.new("C19", "api")
         for i, mh in enumerate(mhs):
             sess.api(mh, what, group=gid, role="same" if i else "base")
+
+
+# ============================================================================= kernels (C17)
+def _bisect_switch(pred, lo, hi, iters=200):
+    """Largest-resolution boundary between pred(lo) and pred(hi) (which must differ); returns (a, b) adjacent doubles."""
+    pl = pred(lo)
+    if pred(hi) == pl:
+        return None
+    for _ in range(iters):
+        mid = 0.5 * (lo + hi)
+        if mid == lo or mid == hi:
+            break
+        if pred(mid) == pl:
+            lo = mid
+        else:
+            hi = mid
+    return lo, hi
+
+
+def _ulp_neighbours(x, ks=(0, 1, 2, 3, 5, 8, 16, 32, 64)):
+    out = []
+    for k in ks:
+        a = b = x
+        for _ in range(k):
+            a = math.nextafter(a, -math.inf)
+            b = math.nextafter(b, math.inf)
+        out += [a, b]
+    return sorted(set(out))
+
+
+def kernel_sweep(sess, rng, step, nts, randoms):
+    """x over [-40, 40] with the given step, t over nts log-spaced values in [1e-8, 1e-2], plus random points,
+    ulp-neighbourhoods of every branch threshold (located on the implementation's observable switch), huge |x|."""
+    import openskill.models.weng_lin.common as wl
+
+    ts = [10 ** (-8 + 6 * i / (nts - 1)) for i in range(nts)]
+    if 1e-5 not in ts:
+        ts.append(1e-5)
+    nx = int(round(80 / step))
+    xs = [-40 + i * step for i in range(nx + 1)]
+    sess.reset()
+    count = 0
+
+    def emit(name, x, t=None):
+        nonlocal count
+        sess.kernel(name, x, t)
+        count += 1
+        if count % 400 == 0:
+            sess.reset()
+
+    for x in [-37.5 + i * step for i in range(int(round(75.5 / step)) + 1)]:
+        emit("phi_major", x)
+    for x in [-37.5, 38.0, -37.49999, 0.0, -0.0, 1e-300, -1e-300, -8.2, -8.3, 8.3]:
+        emit("phi_major", x)
+    for t in ts:
+        for x in xs:
+            for name in ("v", "w", "vt", "wt"):
+                emit(name, x, t)
+        # thresholds of this t, found on the implementation itself
+        th = []
+        r = _bisect_switch(lambda x: type(wl.w(x, t)) is int, -12.0, -5.0)
+        if r:
+            th.append(("w", r))
+        r = _bisect_switch(lambda x: wl.v(x, t) == -(x - t), -12.0, -5.0)
+        if r:
+            th.append(("v", r))
+        r = _bisect_switch(lambda x: wl.vt(x, t) == -x + t, 0.0, 12.0)
+        if r:
+            th.append(("vt", r))
+        r = _bisect_switch(lambda x: wl.wt(x, t) == 1.0 and wl.wt(math.nextafter(x, math.inf), t) == 1.0, 1.0, 12.0)
+        if r:
+            th.append(("wt", r))
+        for name, (a, b) in th:
+            for x in _ulp_neighbours(a) + _ulp_neighbours(b):
+                emit(name, x, t)
+                if name in ("vt", "wt"):
+                    emit(name, -x, t)
+    for _ in range(randoms):
+        t = 10 ** rng.uniform(-8, -2)
+        r = rng.random()
+        x = rng.uniform(-40, 40) if r < 0.6 else rng.uniform(-9, -5) if r < 0.8 else rng.gauss(0, 1e-3) if r < 0.9 else rng.uniform(-1, 1) * t * 3
+        emit(rng.choice(["v", "w", "vt", "wt"]), x, t)
+    for x in [1e3, -1e3, 1e10, -1e10, 1e154, -1e154, 1e300, -1e300, 1.7e308, -1.7e308, 5e-324, -5e-324, 0.0, -0.0]:
+        for t in (1e-8, 1e-5, 1e-2):
+            for name in ("v", "w", "vt", "wt"):
+                emit(name, x, t)
+
+
+# ============================================================================= leagues (histories)
+def league(sess, rng, kind, nplayers, games, predictions=True, twin=False, prop="C20"):
+    """One league: persistent rating objects, random matchmaking and outcomes, ratings fed back in place.
+    Predictions are made on the live objects before games; with twin=True every call is repeated on
+    players rebuilt from their stored (mu, sigma) and grouped as 'same'."""
+    import copy as _copy
+
+    params, g, beta = pick_model_params(rng, kind, simple=rng.random() < 0.6)
+    sess.reset()
+    mh = sess.model(kind, gamma=g, **params)
+    tau_pos = mh.m.tau > 0
+    live = [mh.m.rating(pick_mu(rng, beta), max(pick_sigma(rng, beta), 1e-4 * beta), "p%d" % i) for i in range(nplayers)]
+    for _g in range(games):
+        n = rng.choice([2, 2, 3, 3, 4, 5])
+        size = rng.choice([1, 1, 1, 2, 3])
+        need = n * size
+        if need > nplayers:
+            n, size = 2, 1
+            need = 2
+        idx = rng.sample(range(nplayers), need)
+        split = [idx[i * size:(i + 1) * size] for i in range(n)]
+        teams = [[live[i] for i in t] for t in split]
+        okw, _ = encode_order(rng, weak_order(rng, n))
+        kw = dict(okw)
+        if rng.random() < 0.15:
+            kw["limit_sigma"] = rng.random() < 0.5
+        if rng.random() < 0.15:
+            kw["tau"] = rng.choice([0, beta / 50.0, beta / 5.0])
+        if kw.get("tau", mh.m.tau) == 0 and any(p.sigma < 1e-4 * beta for t in teams for p in t):
+            kw.pop("tau", None)
+
+        def rebuilt():
+            how = rng.choice(["create", "rating", "deepcopy"])
+            if how == "create":
+                return [[mh.m.create_rating([p.mu, p.sigma]) for p in t] for t in teams]
+            if how == "rating":
+                return [[mh.m.rating(p.mu, p.sigma, "restored") for p in t] for t in teams]
+            return _copy.deepcopy(teams)
+
+        if predictions and rng.random() < 0.7:
+            for op in rng.sample(["win", "draw", "rank"], rng.randint(1, 3)):
+                if twin:
+                    gid = GID.new(prop, "league")
+                    sess.predict(op, mh, teams, group=gid, role="base")
+                    sess.predict(op, mh, rebuilt(), group=gid, role="same")
+                else:
+                    sess.predict(op, mh, teams)
+        if twin:
+            gid = GID.new(prop, "league")
+            rb = rebuilt()
+            sess.rate(mh, rb, group=gid, role="base", **kw)      # rebuilt first: the live objects change in place
+            sess.rate(mh, teams, group=gid, role="same", **kw)
+        else:
+            sess.rate(mh, teams, **kw)
+
+
+def leagues(sess, rng, count, nplayers, games, kinds=KINDS, **kw):
+    for i in range(count):
+        league(sess, rng, kinds[i % len(kinds)], nplayers, games, **kw)
